@@ -2,7 +2,8 @@
 from vf.driver import contract_units
 
 LEVEL = "other"
-MODULES = ["contracts.c_access", "contracts.c_engine", "contracts.c_request", "contracts.c_attributes"]
+MODULES = ["contracts.c_access", "contracts.c_engine", "contracts.c_request", "contracts.c_attributes",
+           "contracts.c_init"]
 EXPLANATION = ("No crash is executed.  Decided here: the discipline from which all-or-nothing follows GIVEN "
                "that one SQLAlchemy session commit is one atomic, durable SQLite transaction: on every "
                "path of every state-changing handler under contract no commit lies between two persistent "
